@@ -431,6 +431,7 @@ func (set *Set) MarkHostHealthy(host *Host) bool {
 	if !host.setHealthy() {
 		return false
 	}
+	verifPause("set.mark.flagged", host)
 	set.Lock()
 	defer set.Unlock()
 	// a removed host whose address has been added again is another object.
@@ -446,6 +447,7 @@ func (set *Set) MarkHostUnhealthy(host *Host) bool {
 	if !host.setUnhealthy() {
 		return false
 	}
+	verifPause("set.mark.flagged", host)
 	set.Lock()
 	defer set.Unlock()
 	// a removed host whose address has been added again is another object.
